@@ -115,6 +115,15 @@ def judge(r, what, violations):
     """A scenario result -> violation entries."""
     if "harness_error" in r:
         return "harness"
+    if r.get("deadlock"):
+        violations.append({
+            "what": f"{what}: the call never returns - the caller and the "
+                    f"timer callback wait for each other inside ProgressBar "
+                    f"(unchanged for 300 virtual seconds after the harness "
+                    f"released the held thread)",
+            "mechanism": "call-never-returns",
+            "detail": {"stacks": r.get("stacks")}})
+        return "ok"
     bad = []
     if r.get("armed_timers_at_return", 0) > 0:
         bad.append(f"{r['armed_timers_at_return']} timer(s) still armed "
@@ -246,6 +255,15 @@ def run_schedule(case):
                                      "action": action})
         scen = scen[case["part"]::NPARTS]
         status, err, res = _worker(scen, tmpd, "sched", timeout=550)
+        relaunch = 0
+        while status == 4 and res and res[-1].get("deadlock") \
+                and len(res) < len(scen) and relaunch < 6:
+            # a scenario ended in a wait-for cycle (reported by the worker's
+            # structural observer): go on with the remaining scenarios
+            relaunch += 1
+            status, err, more = _worker(scen[len(res):], tmpd,
+                                        f"sched{relaunch}", timeout=550)
+            res = res + more
         if not res:
             return {"inconclusive": f"schedule phase failed ({status}) "
                     f"{err[-300:]}"}
